@@ -710,3 +710,73 @@ def galarm_none_for_namedtuple_read(src):
 
 
 _LOG = []
+
+
+# ---- class-level reflection (folded when pure and applied to one concrete class) ------------------------------------------
+import sys  # noqa: E402
+
+
+class PlainFilter:
+    @classmethod
+    def partner(cls):
+        module = sys.modules[cls.__module__]
+        name = cls.__name__
+        if name.endswith("Filter"):
+            name = name[:-6]
+        return getattr(module, f"{name}IFilter", None)
+
+    def run(self, x):
+        return x.width
+
+
+class PlainIFilter(PlainFilter):
+    def run(self, x):
+        return x.width
+
+
+class OtherFilter(PlainFilter):
+    pass
+
+
+class OtherIFilter(PlainFilter):
+    def run(self, x):
+        x.width = 1
+
+
+def ok_reflection_partner_reads(src):
+    k = PlainFilter.partner()
+    if k is not None:
+        k().run(src)
+
+
+def alarm_reflection_partner_writes(src):
+    k = OtherFilter.partner()
+    if k is not None:
+        k().run(src)
+
+
+def alarm_reflection_partner_either(src):
+    for c in (PlainFilter, OtherFilter):
+        k = c.partner()
+        if k is not None:
+            k().run(src)
+
+
+class ImpureFilter:
+    registry = []
+
+    @classmethod
+    def partner(cls):
+        cls.registry.append(1)  # not pure: analysed normally
+        return getattr(sys.modules[cls.__module__], cls.__name__[:-6] + "IFilter", None)
+
+
+class ImpureIFilter:
+    def run(self, x):
+        x.width = 1
+
+
+def alarm_reflection_impure(src):
+    k = ImpureFilter.partner()
+    if k is not None:
+        k().run(src)
